@@ -22,7 +22,7 @@ def backendsAgree (k : CKind) (mabs : Float) (a b : Array Int) : Option String :
       if canonF32 x == canonF32 y then continue
       let fx := f64OfF32Bits x
       let fy := f64OfF32Bits y
-      let tol := 4.0 * ulp32 (if fx.abs > fy.abs then x else y) + 1e-9 * mabs
+      let tol := 4.0 * ulp32 (if fx.abs > fy.abs then x else y) + 1e-7 * mabs
       if (fx - fy).abs ≤ tol then continue
       return some s!"component {i}: {fx} vs {fy}"
     | _ => return some s!"component {i}: {x} vs {y}"
